@@ -263,9 +263,11 @@ def _run_case(REG, case, rnd, env):
     else:
         ename = type(exc).__name__
         if ename not in c.raises:
-            if ename in ('AssertionError', 'KeyError', 'IndexError', 'TypeError', 'UnboundLocalError', 'AttributeError'):
+            from vlib.vc.run import _refusal_clause
+            alt = _refusal_clause(c, ename)
+            if alt is None:
                 return dict(status='violation', clause=f'undeclared-raise:{ename}', what=repr(exc)[:200], input=case.describe(env))
-            return dict(status='violation', clause=f'undeclared-raise:{ename}', what=repr(exc)[:200], input=case.describe(env))
+            ename = alt       # an ordinary exception of another class: judged by the contract's clause for refusals
         rs = c.raises[ename]
         post = [(f'raises:{ename}.when', rs.when(ctx0))]
         ectx = Ctx(S=S0, S0=S0, S1=S1, a=a, mgrs0=mgrs, mgrs=mgrs1, uses=c.uses, muts=muts, ex=None, path=None)
